@@ -720,6 +720,15 @@ pub fn plans_for(prop: &str, thorough: bool) -> Vec<Plan> {
                 u_cap: 400,
             });
             plans.push(Plan {
+                name: "F-TYPE (Luau unions / intersections, one special member at a time, every type position) x all widths",
+                cases: gen::f_type(thorough),
+                cfgs: Box::new(syn_cfgs(false)),
+                widths: Widths::All,
+                ranges: Ranges::None,
+                oracles: o,
+                u_cap: 400,
+            });
+            plans.push(Plan {
                 name: "F-WS renderings + F-IGN + F-REQ (sort on)",
                 cases: {
                     let mut v: Vec<Case> = gen::f_ws_files();
